@@ -1,7 +1,7 @@
 from propbase import Comp, Prop, reg
 from oracledefs import compaction
 
-COMPACTION = Comp('compaction', n_quick=1280, n_thorough=40000, oracle=compaction.compaction_oracle,
+COMPACTION = Comp('compaction', n_quick=720, n_thorough=40000, oracle=compaction.compaction_oracle,
                   nontrivial=compaction.compaction_nontrivial, stats=compaction.compaction_stats, chunk_min=20, timeout=900)
 
 reg(Prop('C12', 'Kevo.Props.C12', facts=['facts:compaction.*'], components=[COMPACTION], fact_tags=['compaction'],
